@@ -59,7 +59,28 @@ def render(B, run, ce, mdt="/", st=None):
     outs = I.call_fn(f, [ValRef(ce), arg], st or St(), env)
     if len(outs) != 1 or isinstance(outs[0][1], Panic):
         raise Inconclusive("scheme() forked or panicked")
+    if isinstance(outs[0][1], Union):
+        raise Inconclusive("scheme() returns different texts depending on the symbolic input (use render_alts)")
     return outs[0][1].items
+
+
+def render_alts(B, run, ce, mdt="/", st=None):
+    """as render, for renderings whose text depends on symbolic input -> [(guard, rope items)]"""
+    I = run.I
+    E = B.engine(I.profile)
+    f, env = E._resolve("CompiledExpression::scheme", {"S": "&str"})
+    from mirsym.values import static_str
+    arg = static_str(mdt) if isinstance(mdt, str) else mdt
+    st = st or St()
+    n0 = len(st.pc)
+    res = []
+    for s_, v in I.call_fn(f, [ValRef(ce), arg], st, env):
+        if isinstance(v, Panic):
+            raise Inconclusive("scheme() panicked")
+        g = b_and(*s_.pc[n0:])
+        for g2, x in alts_of(v):
+            res.append((b_and(g, g2), x.items))
+    return res
 
 
 def rope_text(items):
